@@ -131,7 +131,9 @@ func StringValueFromCodeField(message proto.Message) (string, bool) {
 			if code, ok := originalCode(value); ok {
 				return code, true
 			}
-			return strcase.ToKebab(string(value.Name())), true
+			// The code is the enum name in lower case with '-' for '_'. (A case
+			// converter would also split before digits: LEVEL3 is "level3".)
+			return strings.ToLower(strings.ReplaceAll(string(value.Name()), "_", "-")), true
 		}
 		if field.Kind() == protoreflect.StringKind {
 			return reflect.Get(field).String(), true
